@@ -992,14 +992,17 @@ fn exec_inner(op: &Op, dying: Option<&Node>) -> bool {
             let t = s.target;
             let (alive, doomed, must) = m(|m| (m.is_alive(t), m.obligations.contains(&t), m.must_live().contains(&t)));
             if x(|x| x.c16_markers) {
-                alloc::raw_write(1, format!("C16 before-clone target={t} alive={} doomed={} mustlive={}\n", alive as u8, doomed as u8, must as u8).as_bytes());
+                let s = crate::shared::sh();
+                s.c16_flags = alive as u64 | (doomed as u64) << 1 | (must as u64) << 2;
+                s.c16_target = t as u64;
+                s.c16_state = 1;
             }
             if !alive || doomed {
                 st(St::f_dead_handle_clone_in_dtor, 1);
             }
             let c = sut(|| Rc::clone(&s.h));
             if x(|x| x.c16_markers) {
-                alloc::raw_write(1, b"C16 after-clone\n");
+                crate::shared::sh().c16_state = 2;
             }
             if !alive || doomed {
                 std::mem::forget(c);
